@@ -799,3 +799,29 @@ func idUniqueness(meta *Meta, cw *CaseWriter, nums []int, per int) {
 	}
 	meta.Extra["ids_checked"] = len(seen)
 }
+
+func asMap(v interface{}) (map[string]interface{}, bool) {
+	switch x := v.(type) {
+	case map[string]interface{}:
+		return x, true
+	case primitive.M:
+		return map[string]interface{}(x), true
+	case primitive.D:
+		m := map[string]interface{}{}
+		for _, e := range x {
+			m[e.Key] = e.Value
+		}
+		return m, true
+	}
+	return nil, false
+}
+
+func asList(v interface{}) ([]interface{}, bool) {
+	switch x := v.(type) {
+	case []interface{}:
+		return x, true
+	case primitive.A:
+		return []interface{}(x), true
+	}
+	return nil, false
+}
